@@ -4,7 +4,7 @@ from __future__ import annotations
 ID = "C39"
 BOUNDS = {
     "quick": "per device setter TWO consecutive commands with independent symbolic arguments; after each, every telegram the device queued is processed by the device as outgoing and the reported state is compared with the request. Cells: Switch on/off (invert both ways); Light on/off, brightness 0..255, RGB and RGBW colours 0..255 per channel, xyY (colour k/10 with k 0..10 or None, brightness 0..255 or None), tunable white 0..255, colour temperature 0..65535; Cover position/angle 0..100 with both invert settings (reported: target position / angle); Fan speed percent 0..100 and steps 0..max_step (3), oscillation; Climate target temperature without setpoint shift (k/10, 5..40), setpoint shift DPT 6.010 with step 0.1/0.25/0.5/1 (offset = n*step, n -60..60 clipped to -6..6 K; target temperature = base + n*step) and DPT 9.002 (offset k/10); ClimateMode operation/controller mode over every enum member; NumericValue (percent, 2byte_unsigned, temperature k/10), RawValue (1 and 2 octets); 45 s per cell, 40 s per solver query",
-    "thorough": "as quick with 1200 s per cell and 400 s per query",
+    "thorough": "as quick with 240 s per cell and 120 s per query",
 }
 OUTSIDE = "cover travel-time estimation (C40), auto-stop and periodic tasks (task registry replaced by an inert recorder); individual-colour lights (debounce task); HS colour; DateTime/Notification/ExposeSensor devices; configurations other than the listed ones; cells reported as inconclusive (solver budget)"
 ASSUMPTIONS = [
@@ -143,7 +143,7 @@ def cells():
 
 
 def jobs(tier, seed):
-    budget = (45, 40) if tier == "quick" else (1200, 400)
+    budget = (45, 40) if tier == "quick" else (240, 120)
     names = list(cells())
     return [dict(name=n, cell=n, budget=budget, cost=100 if ("Climate." in n or "xyy" in n or "temperature]" in n) else 10) for n in names]
 
